@@ -24,6 +24,14 @@ type panicPayload struct {
 	B string
 }
 
+// a user error type that happens to have the method set of try.Panic (seed C02-12: a recover handler that does not re-wrap a
+// panic value which "already is a captured panic" exposes the INNER cause instead of the value the function panicked with)
+type userPanicErr struct{ inner any }
+
+func (u *userPanicErr) Error() string { return "userPanicErr" }
+func (u *userPanicErr) Panic() any    { return u.inner }
+func (u *userPanicErr) Stack() []byte { return nil }
+
 func panicValueChecks(sink *Sink) int {
 	sentinel := errors.New("sentinel")
 	var nilMap map[string]int
@@ -33,6 +41,11 @@ func panicValueChecks(sink *Sink) int {
 	}{
 		{"int", 7}, {"string", "boom"}, {"error", error(sentinel)}, {"struct", panicPayload{3, "x"}},
 		{"pointer", &panicPayload{4, "y"}}, {"code-error", error(E(5))},
+		// values WITH A HISTORY: the error of an earlier captured panic (what `inner.Get()` re-panics with), through try and
+		// through future, and a user error type with Panic()/Stack() methods: the failure must expose THAT value, not its cause
+		{"captured-try-panic", try.Of(func() int { panic("disk full") }).Failed().Get()},
+		{"captured-fp-panic", fp.PanicError("disk full")},
+		{"user-panic-type", error(&userPanicErr{"inner cause"})},
 	}
 	checks := 0
 	exposes := func(where, name string, want any, err error) {
